@@ -1,7 +1,7 @@
 """C16 - self-describing encodings decode faithfully without a schema (E1)."""
 from mc.checks import codec_matrix as CM
 from mc.checks import stream_corpus as SC
-from mc.core.runner import Result, pyasn1_site, exc_text
+from mc.core.runner import guarded, Result, pyasn1_site, exc_text
 from mc.model import x690 as M
 from mc.model import forms as F
 from mc.model import universe as U
@@ -226,10 +226,12 @@ def shard(tier, i, n, seed):
     for idx, sl, T, v in cases(tier):
         if (idx + seed) % n != i:
             continue
-        try:
-            check_case(idx, sl, T, v, R)
-        except M.ModelError:
-            R.features['model_skipped'] += 1
+        def one():
+            try:
+                check_case(idx, sl, T, v, R)
+            except M.ModelError:
+                R.features['model_skipped'] += 1
+        guarded(R, one, {'slice': sl, 'T': T, 'v': v}, CM.type_features(T), idx)
         R.features['slice:' + sl] += 1
         if idx % 2003 == seed % 2003:
             R.sample({'T': M.show_type(T), 'v': v})
